@@ -1,6 +1,6 @@
 (* Executable entry point of the C08 model for the correspondence check:
    opcode, scalar parameters, input vectors -> output vectors (None = the model rejects the call). *)
-From PV Require Import Base.MachineInt Model.Znx.
+From PV Require Import Base.MachineInt Model.Znx Model.Limbs Model.Flat.
 Open Scope Z_scope.
 
 Definition p (ps : list Z) (i : nat) : Z := nth i ps 0.
@@ -8,6 +8,34 @@ Definition v (vs : list (list Z)) (i : nat) : list Z := nth i vs [].
 Definition unz {A B} (l : list (A * B)) : list A * list B := split l.
 Definition two (l : list (Z * Z)) : list (list Z) := let '(a, b) := split l in [a; b].
 Definition b2 (z : Z) : bool := negb (z =? 0).
+
+(* header of the flat-memory records: be n | rcols rsize rmax rcol | acols asize amax acol | extra... *)
+Definition nat_p (ps : list Z) (i : nat) : nat := Z.to_nat (p ps i).
+Definition rshape (ps : list Z) : shape :=
+  {| s_n := nat_p ps 1; s_cols := nat_p ps 2; s_size := nat_p ps 3; s_max := nat_p ps 4; s_col := nat_p ps 5 |}.
+Definition ashape (ps : list Z) : shape :=
+  {| s_n := nat_p ps 1; s_cols := nat_p ps 6; s_size := nat_p ps 7; s_max := nat_p ps 8; s_col := nat_p ps 9 |}.
+Definition one (o : option (list Z)) : option (list (list Z)) :=
+  match o with Some r => Some [r] | None => None end.
+
+Definition run_c08_vec (code : Z) (ps : list Z) (vs : list (list Z)) : option (list (list Z)) :=
+  let w := 64 in
+  let rs := rshape ps in let as_ := ashape ps in
+  let res := v vs 0 in let a := v vs 1 in
+  let e := fun i => p ps (10 + i) in
+  match code with
+  | 8101 => one (col_op (fun a r => normalize w (e 0%nat) (e 1%nat) (e 2%nat) a r) rs as_ res a)
+  | 8102 => one (col_op (fun _ r => Some (normalize_assign w (e 0%nat) r)) rs rs res res)
+  | 8103 => one (col_op (fun _ r => Some (lsh_assign w (e 0%nat) (e 1%nat) r)) rs rs res res)
+  | 8104 => one (col_op (fun a r => Some (lsh w true (e 0%nat) (e 1%nat) a r)) rs as_ res a)
+  | 8105 => one (col_op (fun a r => Some (lsh w false (e 0%nat) (e 1%nat) a r)) rs as_ res a)
+  | 8106 => one (col_op (fun a r => Some (lsh_sub w (e 0%nat) (e 1%nat) a r)) rs as_ res a)
+  | 8107 => one (col_op (fun _ r => Some (rsh_assign w (e 0%nat) (e 1%nat) r)) rs rs res res)
+  | 8108 => one (col_op (fun a r => Some (rsh w true (e 0%nat) (e 1%nat) a r)) rs as_ res a)
+  | 8109 => one (col_op (fun a r => Some (rsh w false (e 0%nat) (e 1%nat) a r)) rs as_ res a)
+  | 8110 => one (col_op (fun a r => Some (rsh_sub w (e 0%nat) (e 1%nat) a r)) rs as_ res a)
+  | _ => None
+  end.
 
 Definition run_c08 (code : Z) (ps : list Z) (vs : list (list Z)) : option (list (list Z)) :=
   let w := 64 in
@@ -28,5 +56,5 @@ Definition run_c08 (code : Z) (ps : list Z) (vs : list (list Z)) : option (list 
   | 8021 => Some (two (map2 (normalize_digit w (p ps 1)) (v vs 0) (v vs 1)))
   | 8022 | 8023 => Some [map (mul_power_of_two w (p ps 1)) (v vs 0)]
   | 8024 => Some [map2 (mul_add_power_of_two w (p ps 1)) (v vs 0) (v vs 1)]
-  | _ => None
+  | _ => run_c08_vec code ps vs
   end.
